@@ -74,6 +74,24 @@ fn judge(ctx: &Ctx, s: &RSchema, name: &str, v: &RVars, st: &mut Stats) {
         } else {
             (ren::pep440(s, v), catch(|| PEP440::from(z.clone()).to_string()))
         };
+        // a version variable the schema prints (epoch, pre-release number, post, dev) above PEP 440's 32-bit fields cannot be
+        // placed "in its slot": the user-visible path (OutputFormatter, the one every sub-command prints through) must refuse the
+        // object or print the exact documented placement; the infallible library conversion is not the observation point there
+        let secondary_out_of_range = fmt == "pep440" && {
+            let used = |x: RVar| s.core.iter().chain(s.extra_core.iter()).any(|c| *c == RComp::Var(x.clone()));
+            let big = |n: Option<u64>| n.map(|n| n > u32::MAX as u64).unwrap_or(false);
+            (used(RVar::Epoch) && big(v.epoch)) || (used(RVar::PreRelease) && big(v.pre.and_then(|p| p.1))) || (used(RVar::Post) && big(v.post)) || (used(RVar::Dev) && big(v.dev))
+        };
+        if secondary_out_of_range {
+            st.inc("pep440_secondary_out_of_range");
+            match catch(|| zerv::cli::utils::OutputFormatter::format_output(&z, "pep440", None, &None)) {
+                Ok(Err(_)) => st.inc("pep440_secondary_out_of_range_refused"),
+                Ok(Ok(g)) => if g != want { ctx.violation("pep440_out_of_range_number_altered", format!("{} | {} | {} [{name}]", show(&s.core), show(&s.extra_core), show(&s.build)),
+                    json!({"kind":"render","core":show(&s.core),"extra_core":show(&s.extra_core),"build":show(&s.build),"vars":name,"format":fmt}), format!("printed {g:?}; a number above 4294967295 must be refused or printed exactly ({want:?})")); },
+                Err(p) => ctx.violation(&format!("panic@{}", p.file()), format!("{s:?} [{name}]"), json!({"kind":"render","vars":name}), p.message),
+            }
+            continue;
+        }
         match got {
             Ok(g) => {
                 st.observe(&(fmt, &g));
@@ -154,6 +172,43 @@ fn main() {
             jobs.push(RSchema { core: vec![w.clone(), V(RVar::Minor)], extra_core: vec![], build: vec![w.clone()] });
         }
         jobs.par_iter().map(|sc| { let mut st = Stats::default(); st.inc("wide_number_schemas"); for (name, v) in &wide_vars { judge(&ctx, sc, name, v, &mut st); } st }).reduce(Stats::default, Stats::merge)
+    };
+
+    // dense numeric grid (numpool): each grid value in one numeric variable at a time (and in all of them at once), as a
+    // uint() literal, as --distance and as a custom number, under a schema that prints every numeric variable and under the
+    // four placements of the wide-number layer
+    let s_grid = {
+        use RComp::{Str, UInt, Var as V};
+        let base = vec![V(RVar::Major), V(RVar::Minor), V(RVar::Patch)];
+        let full_extra = vec![V(RVar::Epoch), V(RVar::PreRelease), V(RVar::Post), V(RVar::Dev)];
+        let grid = numpool::grid_u64();
+        grid.par_iter().map(|&g| {
+            let mut st = Stats::default();
+            st.inc("grid_values");
+            let b = || RVars { major: Some(1), minor: Some(2), patch: Some(3), epoch: Some(2), pre: Some(("rc", Some(4))), post: Some(5), dev: Some(6), distance: Some(7), bumped_branch: Some("main".into()), custom: json!({"k": 9}), ..Default::default() };
+            let mut vs: Vec<(&'static str, RVars)> = vec![];
+            let mut v = b(); v.major = Some(g); vs.push(("grid_major", v));
+            let mut v = b(); v.minor = Some(g); vs.push(("grid_minor", v));
+            let mut v = b(); v.patch = Some(g); vs.push(("grid_patch", v));
+            let mut v = b(); v.epoch = Some(g); vs.push(("grid_epoch", v));
+            let mut v = b(); v.pre = Some(("beta", Some(g))); vs.push(("grid_pre", v));
+            let mut v = b(); v.post = Some(g); vs.push(("grid_post", v));
+            let mut v = b(); v.dev = Some(g); vs.push(("grid_dev", v));
+            let mut v = b(); v.distance = Some(g); vs.push(("grid_distance", v));
+            let mut v = b(); v.custom = json!({"k": g}); vs.push(("grid_custom", v));
+            let mut v = b(); v.bumped_branch = Some(format!("r/{g}")); vs.push(("grid_branch", v));
+            vs.push(("grid_all", RVars { major: Some(g), minor: Some(g), patch: Some(g), epoch: Some(g), pre: Some(("alpha", Some(g))), post: Some(g), dev: Some(g), distance: Some(g), bumped_branch: Some(g.to_string()), custom: json!({"k": g}), ..Default::default() }));
+            let w = UInt(g);
+            let scs = vec![
+                RSchema { core: base.clone(), extra_core: full_extra.clone(), build: vec![V(RVar::Distance), V(RVar::Custom("k".into())), V(RVar::BumpedBranch)] },
+                RSchema { core: base.clone(), extra_core: vec![], build: vec![Str("b".into()), w.clone()] },
+                RSchema { core: base.clone(), extra_core: vec![V(RVar::PreRelease), w.clone(), V(RVar::Distance)], build: vec![] },
+                RSchema { core: [base.clone(), vec![w.clone(), V(RVar::Distance)]].concat(), extra_core: vec![], build: vec![] },
+                RSchema { core: vec![w.clone(), V(RVar::Minor)], extra_core: vec![V(RVar::Custom("k".into()))], build: vec![w.clone()] },
+            ];
+            for sc in &scs { for (name, v) in &vs { judge(&ctx, sc, name, v, &mut st); } }
+            st
+        }).reduce(Stats::default, Stats::merge)
     };
 
     // every timestamp pattern by name x instants on which calendar year, ISO week-year, month and week number disagree
@@ -278,14 +333,14 @@ fn main() {
     let (d2, _) = run_space(2, 1, 1);
     if d1.digest != d2.digest { machinery_error("determinism replay diverged"); }
 
-    let all = s1.clone().merge(s2.clone()).merge(s3.clone()).merge(s4.clone()).merge(s_wide).merge(s_ts).merge(s_paths);
+    let all = s1.clone().merge(s2.clone()).merge(s3.clone()).merge(s4.clone()).merge(s_wide).merge(s_grid).merge(s_ts).merge(s_paths);
     let mut cov = Coverage::default();
-    cov.states = all.get("schemas") * asg.len() as u64 + s3.get("tier_cases");
+    cov.states = all.get("schemas") * asg.len() as u64 + s3.get("tier_cases") + all.get("grid_values") * 55;
     cov.transitions = all.get("conversions") + s3.get("tier_cli_runs");
     cov.evaluations = all.get("conversions") + s3.get("tier_cli_runs") + s3.get("tier_cases") + s4.get("cli_conformance_cases");
     cov.traces_validated = cov.evaluations;
     cov.distinct_nontrivial = all.get("schemas");
-    cov.rule = format!("valid schemas generated as programs: core sequences over {} components (Major/Minor/Patch order+uniqueness respected, uint/str literals incl. multi-identifier, empty and zero-padded ones, Distance, BumpedBranch, ts, custom), extra_core over {} (Epoch/PreRelease/Post/Dev once each, literals, Dirty, BumpedBranch), build over {}; bounds (core,extra,build) = {} product sizes {n1}+{n2}; each x {} variable assignments x 2 formats, SemVer::from / PEP440::from compared by full string equality with R-REN; the 16 timestamp patterns x 4 placements x 19 instants (New-Year days whose ISO week belongs to the other year, leap days, month ends, the epoch); 29 custom-variable paths (keys with '/', '~', blanks, digits, non-ASCII; paths into arrays, objects, null and nothing) x 4 placements; smart presets: 6 presets x dirty x distance x pre x post x dev tier table at schema_with_zerv and through the CLI. non-trivial = distinct non-empty schemas", core_alpha.len(), extra_alpha.len(), build_alpha.len(), if quick { "(3,2,1)" } else { "(4,2,1) and (3,3,2)" }, asg.len());
+    cov.rule = format!("valid schemas generated as programs: core sequences over {} components (Major/Minor/Patch order+uniqueness respected, uint/str literals incl. multi-identifier, empty and zero-padded ones, Distance, BumpedBranch, ts, custom), extra_core over {} (Epoch/PreRelease/Post/Dev once each, literals, Dirty, BumpedBranch), build over {}; bounds (core,extra,build) = {} product sizes {n1}+{n2}; each x {} variable assignments x 2 formats, SemVer::from / PEP440::from compared by full string equality with R-REN; the 16 timestamp patterns x 4 placements x 19 instants (New-Year days whose ISO week belongs to the other year, leap days, month ends, the epoch); 29 custom-variable paths (keys with '/', '~', blanks, digits, non-ASCII; paths into arrays, objects, null and nothing) x 4 placements; smart presets: 6 presets x dirty x distance x pre x post x dev tier table at schema_with_zerv and through the CLI. dense numeric grid: {} values (0..=300, neighbourhoods of 2^8..2^64 and 10^2..10^20 up to u64::MAX) in each numeric variable in turn, all at once, as uint literal, custom number and branch segment x 5 schemas. non-trivial = distinct non-empty schemas", all.get("grid_values"), core_alpha.len(), extra_alpha.len(), build_alpha.len(), if quick { "(3,2,1)" } else { "(4,2,1) and (3,3,2)" }, asg.len());
     cov.exhaustive = true;
     cov.samples = vec![json!({"core":"Major,str(\"1.2\"),Patch","extra_core":"PreRelease,Dirty","build":"str(\"B-1\")","vars":"all_set"}), json!({"preset":"calver","dirty":false,"distance":0,"post":2}), json!({"core":"str(\"007\"),ts(YYYY)","extra_core":"Epoch","build":"","vars":"zeros"})];
     cov.set("clause_counts", all.to_json());
